@@ -1,4 +1,6 @@
 #!/bin/bash
-# usage: benbatch.sh Cxx...   runs b1..b3 of each, 3 properties in parallel
-cd /verif
-for p in "$@"; do echo $p; done | xargs -P 3 -I{} sh -c 'for k in 1 2 3; do [ -f /tmp/benign-out/{}/b$k.diff ] && python3 lib/benigntest.py {} /tmp/benign-out/{} $k --keep --no-suite > /tmp/benres-{}-$k.json 2>&1; done'
+# usage: [KS="1 2 3"] [SRC=/tmp/benign-out] lib/benbatch.sh Cxx...   runs b<k> of each property, 3 properties in parallel
+# (SRC/<Cxx>/b<k>.diff; with SRC=stored the changes kept under benign/<Cxx>-b<k>/ are re-run on the current tree)
+cd "$(dirname "$0")/.."
+export KS="${KS:-1 2 3}" SRC="${SRC:-/tmp/benign-out}"
+for p in "$@"; do echo $p; done | xargs -P 3 -I{} sh -c 'for k in $KS; do if [ "$SRC" = stored ]; then d=benign/{}-b$k; [ -f $d/patch.diff ] && python3 lib/benigntest.py {} $PWD/$d $k --keep --no-suite > /tmp/benres-{}-$k.json 2>&1; else [ -f $SRC/{}/b$k.diff ] && python3 lib/benigntest.py {} $SRC/{} $k --keep --no-suite > /tmp/benres-{}-$k.json 2>&1; fi; done'
